@@ -389,6 +389,11 @@ Definition parse_text_fuel (fuel : nat) (text : list N) : pres jv :=
   end.
 Definition parse_text (text : list N) : pres jv := parse_text_fuel (parse_fuel (cstr text)) text.
 
+(* A JsonParser object used for a sequence of texts: Begin() resets all of its state, so every
+   result depends on its own text only (that the C++ object really is stateless between calls is
+   validated by the harness' long-lived-parser path, not proved). *)
+Definition parse_seq (texts : list (list N)) : list (pres jv) := map parse_text texts.
+
 (* ------------------------------------------------------------------ JsonWriter.cpp *)
 Fixpoint dec_aux (fuel : nat) (n : N) (acc : list N) : list N :=
   match fuel with
